@@ -99,14 +99,15 @@ def cases(tier, seed, info):
         for ss in subsets:
             for mode in ('list', 'all', 'count', 'json'):
                 cli.append(dict(o=_opt(sw, ss, 'none'), mode=mode))
-    for lk in ('plid', 'src', 'srcExclude'):
-        cli.append(dict(o=_opt((False,) * 6, [], lk), mode=lk))
+    for rep in range(3):           # (three times each: they land in different cases, i.e. environments / process variants)
+        for lk in ('plid', 'src', 'srcExclude'):
+            cli.insert((rep * 97) % (len(cli) + 1), dict(o=_opt((False,) * 6, [], lk), mode=lk))
     # the look-ups that display ONE PEL: every class of PEL must be found without selection options
     # (PEL number 1 carries BMC event log id 0)
     npel = len(CLI_SEVS) * len(CLI_FLAGS)
     targets = sorted(set([1, 2, 3] + list(range(1, len(CLI_FLAGS) + 1)) +
                          rng.sample(range(1, npel + 1), 10 if tier == 'quick' else npel)))
-    for t in targets:
+    for t in targets + [1, 1]:
         for lk in ('bmcID', 'pelID'):
             cli.append(dict(o=_opt((False,) * 6, [], lk), mode=lk, target=t))
     for k in range(0, len(cli), 12):
